@@ -191,6 +191,15 @@ def position_units():
 
     mf = MATCH_FORMS
     add("let", mf, lambda f, o: f"    {MKP} let v: u32 = {M('p', f, oracle=o)}; show(v, p)")
+    # the parser has been exhausted by `split` (its private `yielded_last_split` flag is set); after the macro a further
+    # `split` must still report exhaustion, as it does after the chain of Parser calls
+    # (added after seeded change C18-r5-1: `Parser::skip` rebuilt the parser with `with_start_offset`, losing the flag)
+    EXH = "loop { match p.split(',') { Ok((_, q)) => p = q, Err(_) => break } }"
+    def afterexh(f, o):
+        if f in TRIM_FORMS:
+            return f"    {MKP} {EXH} {M('p', f, oracle=o)}; let again = p.split(',').is_ok(); show(again as u32, p)"
+        return f"    {MKP} {EXH} let v: u32 = {M('p', f, oracle=o)}; let again = p.split(',').is_ok(); show(v + 1000 * again as u32, p)"
+    add("afterexh", mf + TRIM_FORMS, afterexh)
     add("ifc", mf, lambda f, o: f"    {MKP} let v: u32 = if {M('p', f, oracle=o)} == 0 {{ 50 }} else {{ 60 }}; show(v, p)")
     add("scrut", mf, lambda f, o: f"    {MKP} let v: u32 = match {M('p', f, oracle=o)} {{ 0 => 70, 1 => 71, _ => 79 }}; show(v, p)")
     add("marm", mf, lambda f, o: f"    {MKP} let v: u32 = match base {{ 0 => {M('p', f, oracle=o)}, _ => {M('p', f, oracle=o)} }}; show(v, p)")
